@@ -7,6 +7,7 @@ of at least the number of steps is never exhausted (`ir_not_interrupted`), and t
 -/
 import Hpbf.Ir
 import Hpbf.Bc
+import Hpbf.Proofs.C04
 
 namespace Hpbf
 namespace C07
@@ -759,6 +760,238 @@ theorem bc_limited_halts (p : Bc.Program w) (n : Nat) :
     | stop c1 => exact ⟨1, fun c' => by rw [bc_run_stop hs]; simp⟩
     | bad c1 => exact ⟨1, fun c' => by rw [bc_run_bad hs]; simp⟩
     | interrupted c1 => exact ⟨1, fun c' => by rw [bc_run_interrupted hs]; simp⟩
+
+/-! ## Event sequences only grow (both machines, both modes) -/
+
+theorem doCalc_trace (s : State w) (calcs : List (Int × Expr w)) :
+    (Ir.doCalc s calcs).trace = s.trace := by
+  unfold Ir.doCalc
+  simp only
+  generalize calcs.map (fun ve => (ve.1, Expr.evaluate ve.2 (fun off => s.rd off))) = vals
+  have : ∀ (vals : List (Int × BitVec w)) (t : State w),
+      (vals.foldl (fun s vv => s.wr vv.1 vv.2) t).trace = t.trace := by
+    intro vals
+    induction vals with
+    | nil => intro t; rfl
+    | cons v vs ih => intro t; simp only [List.foldl]; rw [ih]; rfl
+  exact this vals s
+
+def irResCfg : Ir.StepRes w → Ir.Cfg w
+  | .next c => c
+  | .halt c => c
+  | .stop c => c
+  | .interrupted c => c
+
+theorem ir_step_trace (l : Bool) (c : Ir.Cfg w) :
+    c.st.trace <:+ (irResCfg (Ir.step l c)).st.trace := by
+  obtain ⟨cur, conts, budget, st⟩ := c
+  cases cur with
+  | nil =>
+    cases conts with
+    | nil => exact List.suffix_refl _
+    | cons k ks =>
+      cases k with
+      | loopEnd cond shift body rest =>
+        simp only [Ir.step]
+        split
+        · simp [irResCfg, unwind_trace, State.mov]
+        · split <;> simp [irResCfg, State.mov]
+      | ifEnd shift rest =>
+        simp only [Ir.step]
+        split
+        · simp [irResCfg, unwind_trace, State.mov]
+        · simp [irResCfg, State.mov]
+  | cons i rest =>
+    cases i with
+    | output src =>
+      have := C04.output_trace st src
+      simp only [Ir.step]
+      rcases hio : st.output src with ⟨ok, s⟩
+      rw [hio] at this
+      cases ok <;> simpa [irResCfg] using this
+    | input dst =>
+      have := C04.input_trace st dst
+      simp only [Ir.step]
+      rcases hio : st.input dst with ⟨ok, s⟩
+      rw [hio] at this
+      cases ok <;> simpa [irResCfg] using this
+    | «calc» calcs => simp [Ir.step, irResCfg, doCalc_trace]
+    | loop cond shift body once =>
+      simp only [Ir.step]
+      split <;> simp [irResCfg]
+    | ifnz cond shift body =>
+      simp only [Ir.step]
+      split <;> simp [irResCfg]
+
+theorem ir_trace_start (l : Bool) (f : Nat) (c : Ir.Cfg w) :
+    c.st.trace <:+ traceOfIr (Ir.runCfg l f c) := by
+  induction f generalizing c with
+  | zero => exact List.suffix_refl _
+  | succ f ih =>
+    have := ir_step_trace l c
+    cases hs : Ir.step l c with
+    | next c' => rw [hs] at this; rw [ir_run_next hs]; exact List.IsSuffix.trans this (ih c')
+    | halt c' => rw [hs] at this; rw [ir_run_halt hs]; exact this
+    | stop c' => rw [hs] at this; rw [ir_run_stop hs]; exact this
+    | interrupted c' => rw [hs] at this; rw [ir_run_interrupted hs]; exact this
+
+/-- The event sequence after `f` steps is an initial part of the one after `f + g` steps. -/
+theorem ir_trace_add (l : Bool) (f g : Nat) (c : Ir.Cfg w) :
+    traceOfIr (Ir.runCfg l f c) <:+ traceOfIr (Ir.runCfg l (f + g) c) := by
+  induction f generalizing c with
+  | zero => rw [Nat.zero_add]; exact ir_trace_start l g c
+  | succ f ih =>
+    have e : f + 1 + g = (f + g) + 1 := by omega
+    rw [e]
+    cases hs : Ir.step l c with
+    | next c' => rw [ir_run_next hs, ir_run_next hs]; exact ih c'
+    | halt c' => rw [ir_run_halt hs, ir_run_halt hs]; exact List.suffix_refl _
+    | stop c' => rw [ir_run_stop hs, ir_run_stop hs]; exact List.suffix_refl _
+    | interrupted c' => rw [ir_run_interrupted hs, ir_run_interrupted hs]; exact List.suffix_refl _
+
+theorem readLoc_trace (c : Bc.Cfg w) (l : Bc.Loc w) : (Bc.readLoc c l).2.st.trace = c.st.trace := by
+  cases l <;> rfl
+
+theorem writeLoc_trace {c c' : Bc.Cfg w} {v : BitVec w} {l : Bc.Loc w}
+    (h : Bc.writeLoc c v l = some c') : c'.st.trace = c.st.trace := by
+  cases l <;> simp [Bc.writeLoc] at h <;> subst h <;> rfl
+
+theorem binop_trace {f : BitVec w → BitVec w → BitVec w} {c c' : Bc.Cfg w} {d a b : Bc.Loc w}
+    (h : Bc.binop f c d a b = some c') : c'.st.trace = c.st.trace := by
+  unfold Bc.binop at h
+  split at h
+  · have := writeLoc_trace h
+    exact this.trans ((readLoc_trace (Bc.readLoc c b).2 d).trans (readLoc_trace c b))
+  · have := writeLoc_trace h
+    exact this.trans ((readLoc_trace (Bc.readLoc c a).2 b).trans (readLoc_trace c a))
+
+def bcResCfg : Bc.StepRes w → Bc.Cfg w
+  | .next c => c
+  | .halt c => c
+  | .stop c => c
+  | .interrupted c => c
+  | .bad c => c
+
+theorem bc_step_trace (p : Bc.Program w) (l : Bool) (c : Bc.Cfg w) :
+    c.st.trace <:+ (bcResCfg (Bc.step p l c)).st.trace := by
+  obtain ⟨pc, temps, budget, st⟩ := c
+  cases hi : p.insts[pc]? with
+  | none =>
+    simp only [Bc.step, hi]
+    split <;> exact List.suffix_refl _
+  | some ins =>
+    cases ins with
+    | noop => simp [Bc.step, hi, bcResCfg]
+    | mov sh => simp [Bc.step, hi, bcResCfg, State.mov]
+    | scan cond sh =>
+      simp only [Bc.step, hi]
+      split
+      · simp [bcResCfg]
+      · split
+        · split <;> simp [bcResCfg]
+        · simp [bcResCfg, State.mov]
+    | inp dst =>
+      have := C04.input_trace st dst
+      simp only [Bc.step, hi]
+      rcases hio : st.input dst with ⟨ok, s⟩
+      rw [hio] at this
+      cases ok <;> simpa [bcResCfg] using this
+    | out src =>
+      have := C04.output_trace st src
+      simp only [Bc.step, hi]
+      rcases hio : st.output src with ⟨ok, s⟩
+      rw [hio] at this
+      cases ok <;> simpa [bcResCfg] using this
+    | brz cond off =>
+      simp only [Bc.step, hi]
+      cases l
+      · simp only [Bool.false_eq_true, if_false]
+        split
+        · split <;> simp [bcResCfg]
+        · simp [bcResCfg]
+      · simp only [if_true, Bc.charge]
+        split
+        · rename_i h; split at h <;> cases h
+          simp [bcResCfg]
+        · rename_i c1 h
+          split at h
+          · cases h
+          · cases h
+            simp only
+            split
+            · split <;> simp [bcResCfg]
+            · simp [bcResCfg]
+    | brnz cond off =>
+      simp only [Bc.step, hi]
+      cases l
+      · simp only [Bool.false_eq_true, if_false]
+        split
+        · split <;> simp [bcResCfg]
+        · simp [bcResCfg]
+      · simp only [if_true, Bc.charge]
+        split
+        · rename_i h; split at h <;> cases h
+          simp [bcResCfg]
+        · rename_i c1 h
+          split at h
+          · cases h
+          · cases h
+            simp only
+            split
+            · split <;> simp [bcResCfg]
+            · simp [bcResCfg]
+    | add d a b =>
+      simp only [Bc.step, hi]
+      cases hb : Bc.binop (· + ·) ⟨pc, temps, budget, st⟩ d a b with
+      | none => simp [bcResCfg]
+      | some c' => have := binop_trace hb; simp [bcResCfg, this]
+    | sub d a b =>
+      simp only [Bc.step, hi]
+      cases hb : Bc.binop (fun x y => x + (-y)) ⟨pc, temps, budget, st⟩ d a b with
+      | none => simp [bcResCfg]
+      | some c' => have := binop_trace hb; simp [bcResCfg, this]
+    | mul d a b =>
+      simp only [Bc.step, hi]
+      cases hb : Bc.binop (· * ·) ⟨pc, temps, budget, st⟩ d a b with
+      | none => simp [bcResCfg]
+      | some c' => have := binop_trace hb; simp [bcResCfg, this]
+    | copy d s =>
+      simp only [Bc.step, hi]
+      cases hb : Bc.writeLoc (Bc.readLoc ⟨pc, temps, budget, st⟩ s).2
+          (Bc.readLoc ⟨pc, temps, budget, st⟩ s).1 d with
+      | none => simp [bcResCfg]
+      | some c' =>
+        have := (writeLoc_trace hb).trans (readLoc_trace ⟨pc, temps, budget, st⟩ s)
+        simp only [] at this
+        simp [bcResCfg, this]
+
+theorem bc_trace_start (p : Bc.Program w) (l : Bool) (f : Nat) (c : Bc.Cfg w) :
+    c.st.trace <:+ traceOfBc (Bc.runCfg p l f c) := by
+  induction f generalizing c with
+  | zero => exact List.suffix_refl _
+  | succ f ih =>
+    have := bc_step_trace p l c
+    cases hs : Bc.step p l c with
+    | next c' => rw [hs] at this; rw [bc_run_next hs]; exact List.IsSuffix.trans this (ih c')
+    | halt c' => rw [hs] at this; rw [bc_run_halt hs]; exact this
+    | stop c' => rw [hs] at this; rw [bc_run_stop hs]; exact this
+    | interrupted c' => rw [hs] at this; rw [bc_run_interrupted hs]; exact this
+    | bad c' => rw [hs] at this; rw [bc_run_bad hs]; exact this
+
+/-- The event sequence after `f` steps is an initial part of the one after `f + g` steps. -/
+theorem bc_trace_add (p : Bc.Program w) (l : Bool) (f g : Nat) (c : Bc.Cfg w) :
+    traceOfBc (Bc.runCfg p l f c) <:+ traceOfBc (Bc.runCfg p l (f + g) c) := by
+  induction f generalizing c with
+  | zero => rw [Nat.zero_add]; exact bc_trace_start p l g c
+  | succ f ih =>
+    have e : f + 1 + g = (f + g) + 1 := by omega
+    rw [e]
+    cases hs : Bc.step p l c with
+    | next c' => rw [bc_run_next hs, bc_run_next hs]; exact ih c'
+    | halt c' => rw [bc_run_halt hs, bc_run_halt hs]; exact List.suffix_refl _
+    | stop c' => rw [bc_run_stop hs, bc_run_stop hs]; exact List.suffix_refl _
+    | interrupted c' => rw [bc_run_interrupted hs, bc_run_interrupted hs]; exact List.suffix_refl _
+    | bad c' => rw [bc_run_bad hs, bc_run_bad hs]; exact List.suffix_refl _
 
 end C07
 end Hpbf
